@@ -25,7 +25,7 @@ def body():
 
     chk.assume(
         "|exp(ikr)-1-ikr| <= |k|^2 r^2 / 2 * e^{|Im k| r} and |d/dn (exp(ikr)-1)/r| <= |k|^2 pointwise, so the entrywise bounds hold for any positive-weight "
-        "quadrature when |k| D <= 1 (stated by the property, evaluated here)",
+        "quadrature when |k| D <= 1 (stated by the property, evaluated here); for Im k < 0 (growing kernel) only |k| D <= 1/2 is judged: |e^z - 1 - z| <= |z|^2 e^|z| / 2",
         "symmetry clauses (V = V^T, W = W^T, K' = K^T) are quadrature-limited: judged at orders (8,8) against 1e-6 (quick: on the octahedron only), recorded at (4,4)",
     )
     quick = chk.tier == "quick"
@@ -123,7 +123,7 @@ def body():
         except Exception as exc:
             chk.violation("routing:%s:exception" % site, "%s: %s: %s" % (label, type(exc).__name__, str(exc)[:200]), {"obligation": ob})
     # ---- relations on matrices ---------------------------------------------------------------------
-    ks = [0.3, 0.3 + 0.2j, 0.25j, -0.3 + 0.2j, 0.05 + 0.4j] if quick else [0.3, 0.1, 0.3 + 0.2j, 0.25j, -0.3 + 0.2j, 0.05 + 0.4j, 0.45 - 0.0j, 0.2 + 0.4j]
+    ks = [0.3, 0.3 + 0.2j, 0.25j, -0.3 + 0.2j, 0.05 + 0.4j, 0.2 - 0.15j] if quick else [0.3, 0.1, 0.3 + 0.2j, 0.25j, -0.3 + 0.2j, 0.05 + 0.4j, 0.45 - 0.0j, 0.2 + 0.4j, 0.2 - 0.15j, -0.1 - 0.2j]
     worst = {"sl": 0.0, "dl": 0.0}
     for gname, g in meshes.items():
         D = float(np.max(np.linalg.norm(g.vertices[:, :, None] - g.vertices[:, None, :], axis=0)))
@@ -140,6 +140,8 @@ def body():
             mm = np.outer(m[kt], m[kd])
             for k in ks:
                 kk = k * (1.0 / (D * max(abs(k), 1e-9))) * min(1.0, abs(k) * D) if abs(k) * D > 1 else k   # enforce |k| D <= 1
+                if np.imag(k) < 0 and abs(kk) * D > 0.5:
+                    kk = kk * 0.5 / (abs(kk) * D)      # growing kernels (Im k < 0): the bounds follow from |e^z - 1 - z| <= |z|^2 e^|z| / 2 only for |k| D <= 1/2
                 label = "%s %s->%s k=%s" % (gname, kd, kt, np.round(kk, 4))
                 H = {n: getattr(b.helmholtz, n)(sp[kd], sp[kt], sp[kt], kk).weak_form().to_dense() for n in ("single_layer", "double_layer", "adjoint_double_layer")}
                 chk.count(label, True)
@@ -188,6 +190,24 @@ def body():
                         chk.violation("symmetry:%s" % a, "%s on %s: asymmetry %.3g at orders (8,8)" % (a, gname, v), {})
             par.quadrature.regular, par.quadrature.singular = 4, 4
         chk.part("symmetry_defects", **{gname: sym})
+        # the same with the normals of one domain swapped (non-constant normal multipliers): W stays complex-symmetric and W(eps + i w) -> W_modified(w)
+        doms = sorted(set(int(x) for x in g.domain_indices))
+        if len(doms) > 1:
+            par.quadrature.regular, par.quadrature.singular = 8, 8
+            ps = api.function_space(g, "P", 1, include_boundary_dofs=True, swapped_normals=[doms[-1]])
+            Ws = b.helmholtz.hypersingular(ps, ps, ps, 0.3 + 0.2j).weak_form().to_dense()
+            v = float(np.abs(Ws - Ws.T).max() / np.abs(Ws).max())
+            chk.count(("symmetry", gname, "W swapped normals"), True)
+            chk.part("symmetry_defects_swapped", **{gname: v})
+            if v > 1e-6:
+                chk.violation("symmetry:W", "hypersingular with the normals of domain %d swapped on %s: asymmetry %.3g at orders (8,8)" % (doms[-1], gname, v), {})
+            par.quadrature.regular, par.quadrature.singular = 4, 4
+            We = b.helmholtz.hypersingular(ps, ps, ps, 1e-7 + 0.5j).weak_form().to_dense()
+            Wm = b.modified_helmholtz.hypersingular(ps, ps, ps, 0.5).weak_form().to_dense()
+            chk.count(("imaginary_k_limit", gname, "W swapped normals"), True)
+            if np.abs(We - Wm).max() > 50 * 1e-7 * np.abs(Wm).max():
+                chk.violation("imaginary_k_limit:boundary.hypersingular", "hypersingular(1e-7 + 0.5i) with the normals of domain %d swapped is %.3g away from modified_helmholtz(0.5) on %s" % (
+                    doms[-1], np.abs(We - Wm).max() / np.abs(Wm).max(), gname), {})
     chk.cov["worst_bound_ratio"] = worst
     chk.sample({"routing": res.obligations[0], "bound_ratio_single_layer": worst["sl"], "bound_ratio_double_layer": worst["dl"]})
     chk.cov["rule"] = "one evaluation per (site, wavenumber) routing state and per (grid, space pair, wavenumber) for the bounds / conjugation relations; all are distinct inputs"
